@@ -5,6 +5,7 @@ CONSTANTS
   AgeWin = 10
   MAXV = 1000000000
   PragueFrom = 0
+  Base = 0
   Senders = {"s1", "s2"}
   Signers = {"k1", "k2"}
   MaxLen = 40
